@@ -57,6 +57,8 @@ def gen_base(rng, tier, index):
         # whoever is not joined (a replaced worker, the last retiring one) is still inside end() when the context is left
         q = 1 + (index // 16) % 3
         return {"pool": "factory", "workers": 2, "quota": q, "wq": 1.0, "rq": None, "end_delay": 0.4, "begin_delay": 0, "ready_first": False,
+                "worker_opts": {"quota_after_init": True},      # the chunk limit set through the attribute after construction
+
                 "calls": [{"ordered": True, "n": 2 * q * 2, "chunk": 1, "form": "list"}, {"ordered": False, "n": 2 * q, "chunk": 1, "form": "gen"}]}
     case = c03.gen_base(rng, tier, index)
     case.pop("join_timeout", None)       # the property speaks about pools without join_timeout
